@@ -584,7 +584,25 @@ pub fn consumer_at<N: ArrayLength, A: Elem>(p: usize) -> Result<(), String> {
 
 // ---------------------------------------------------------------- enumeration
 
-fn drive(ctx: &mut Ctx, desc: &str, nonempty: bool, f: &dyn Fn(Option<u64>) -> Result<u64, String>) {
+/// every index for up to 64 fault points; for longer runs the first, the last, the quartiles and both sides of
+/// every power of two (the shapes of the binary storage recursion and of any chunked fast path)
+pub fn fault_indices(count: u64) -> Vec<u64> {
+    if count <= 64 {
+        return (0..count).collect();
+    }
+    let mut v = vec![0, 1, 2, count / 4, count / 2, count / 2 + 1, 3 * count / 4, count - 3, count - 2, count - 1];
+    let mut p = 8u64;
+    while p < count {
+        v.extend([p - 1, p, p + 1]);
+        p *= 2;
+    }
+    v.retain(|&k| k < count);
+    v.sort();
+    v.dedup();
+    v
+}
+
+pub fn drive(ctx: &mut Ctx, desc: &str, nonempty: bool, f: &dyn Fn(Option<u64>) -> Result<u64, String>) {
     // fault-free run: decides the number of fault points (needed in every shard)
     elems::reset_all();
     let count = match catch(|| f(None)) {
@@ -593,7 +611,7 @@ fn drive(ctx: &mut Ctx, desc: &str, nonempty: bool, f: &dyn Fn(Option<u64>) -> R
     };
     ctx.case(&format!("{desc};k=-"), || f(None).map(|c| CaseInfo::new(false, format!("fault-free:{}", if c == 0 { "0-calls" } else { "calls" }))));
     ctx.count("fault_points", count);
-    for k in 0..count {
+    for k in fault_indices(count) {
         let fired = Cell::new(0);
         ctx.case(&format!("{desc};k={k}"), || {
             f(Some(k))?;
@@ -654,6 +672,7 @@ pub fn run(ctx: &mut Ctx) {
         d!(ctx, N, "map-owned", "A=TrZ,U=TrZ", |k| map_owned::<N, TrZ, TrZ>(k));
         d!(ctx, N, "map-owned", "A=u32,U=Tr4", |k| map_owned::<N, u32, Tr<0>>(k));
         d!(ctx, N, "map-owned", "A=Tr24,U=Tr8", |k| map_owned::<N, Tr<5>, Tr<1>>(k));
+        d!(ctx, N, "map-owned", "A=Tr128,U=Tr128", |k| map_owned::<N, Tr<31>, Tr<31>>(k));
         d!(ctx, N, "map-ref", "A=Tr4,U=Tr4", |k| map_ref::<N, Tr<0>, Tr<0>>(k));
         d!(ctx, N, "map-ref", "A=u32,U=Tr4", |k| map_ref::<N, u32, Tr<0>>(k));
         d!(ctx, N, "map-ref", "A=TrZ,U=TrZ", |k| map_ref::<N, TrZ, TrZ>(k));
@@ -739,6 +758,46 @@ pub fn run(ctx: &mut Ctx) {
             for kind in 0u8..2 {
                 let kn = ["ArrayBuilder", "IntrusiveArrayBuilder"][kind as usize];
                 drive(ctx, &format!("C04;{kn}-extend;N={};A=Tr4;c={c}", N::USIZE), c > 0, &|k| builder_extend::<N, Tr<0>>(kind, c, k));
+            }
+        }
+    });
+    // large lengths (fault-index lattice): a fast path keyed on the length would only show here
+    for_ns!(ctx, [U100, U1000], [], N => {
+        d!(ctx, N, "generate-owned", "U=Tr4", |k| gen_owned::<N, Tr<0>>(k));
+        d!(ctx, N, "generate-box", "U=Tr4", |k| gen_box::<N, Tr<0>>(k));
+        d!(ctx, N, "generate-box", "U=Zn", |k| gen_box::<N, Zn>(k));
+        d!(ctx, N, "default-owned", "U=Tr4", |k| default_owned::<N, Tr<0>>(k));
+        d!(ctx, N, "default-boxed", "U=Tr4", |k| default_boxed::<N, Tr<0>>(k));
+        d!(ctx, N, "map-owned", "A=Tr4,U=Tr4", |k| map_owned::<N, Tr<0>, Tr<0>>(k));
+        d!(ctx, N, "map-owned", "A=TrZ,U=Tr4", |k| map_owned::<N, TrZ, Tr<0>>(k));
+        d!(ctx, N, "map-owned", "A=Tr128,U=u32", |k| map_owned::<N, Tr<31>, u32>(k));
+        d!(ctx, N, "map-ref", "A=Tr4,U=Tr4", |k| map_ref::<N, Tr<0>, Tr<0>>(k));
+        d!(ctx, N, "map-mut", "A=Tr4,U=Tr4", |k| map_mut::<N, Tr<0>, Tr<0>>(k));
+        d!(ctx, N, "map-box", "A=Tr4,U=Tr4", |k| map_box::<N, Tr<0>, Tr<0>>(k));
+        d!(ctx, N, "fold-owned", "A=Tr4", |k| fold_owned::<N, Tr<0>>(k));
+        d!(ctx, N, "fold-box", "A=Tr4", |k| fold_box::<N, Tr<0>>(k));
+        d!(ctx, N, "zip-owned-owned", "A=Tr4,B=Tr4,U=Tr4", |k| zip_oo::<N, Tr<0>, Tr<0>, Tr<0>>(k));
+        d!(ctx, N, "zip-owned-owned", "A=Tr4,B=u32,U=u32", |k| zip_oo::<N, Tr<0>, u32, u32>(k));
+        d!(ctx, N, "zip-owned-ref", "A=Tr4,B=u32,U=u32", |k| zip_os::<N, Tr<0>, u32, u32>(k));
+        d!(ctx, N, "zip-ref-owned", "A=u32,B=Tr4,U=Tr4", |k| zip_so::<N, u32, Tr<0>, Tr<0>>(k));
+        d!(ctx, N, "zip-mut-mut", "A=Tr4,B=Tr4,U=Tr4", |k| zip_mm::<N, Tr<0>, Tr<0>, Tr<0>>(k));
+        d!(ctx, N, "zip-box-box", "A=Tr4,B=Tr4,U=Tr4", |k| zip_bb::<N, Tr<0>, Tr<0>, Tr<0>>(k));
+        d!(ctx, N, "clone-array", "A=Tr4", |k| clone_arr::<N, Tr<0>>(k));
+        d!(ctx, N, "clone-array", "A=Nd", |k| clone_arr::<N, Nd>(k));
+        d!(ctx, N, "clone-box", "A=Tr4", |k| clone_box::<N, Tr<0>>(k));
+        for entry in 0u8..4 {
+            let en = ["try_from_iter", "from_iter", "try_boxed_from_iter", "boxed-from_iter"][entry as usize];
+            for c in [N::USIZE - 1, N::USIZE, N::USIZE + 1] {
+                drive(ctx, &format!("C04;collect-{en};N={};A=Tr4;c={c};hint=none", N::USIZE), true, &|k| collect_script::<N, Tr<0>>(entry, c, false, k));
+            }
+        }
+        drive(ctx, &format!("C04;collect-chain;N={};A=Tr4,U=Tr4;rev=true;boxed=false", N::USIZE), true, &|k| collect_chain::<N, Tr<0>, Tr<0>>(true, false, k));
+        for (f, b) in [(0usize, 0usize), (1, 1), (N::USIZE / 2, 0), (0, N::USIZE / 2), (N::USIZE / 3, N::USIZE / 3), (N::USIZE - 1, 0), (0, N::USIZE)] {
+            for pre in [false, true] {
+                let pos = format!("N={};origin={};f={f};b={b}", N::USIZE, if pre { "clone" } else { "fresh" });
+                drive(ctx, &format!("C04;iter-clone;{pos};A=Tr4"), true, &|k| clone_iter::<N, Tr<0>>(pre, f, b, k));
+                drive(ctx, &format!("C04;iter-fold;{pos};A=Tr4"), true, &|k| iter_fold::<N, Tr<0>>(0, pre, f, b, k));
+                drive(ctx, &format!("C04;iter-rfold;{pos};A=Tr4"), true, &|k| iter_fold::<N, Tr<0>>(1, pre, f, b, k));
             }
         }
     });
